@@ -5,7 +5,7 @@ CONSTANTS
   Coefs <- MCCoefsBig
   MaxN = 4
   NVs = {1, 2}
-  LinNV = {1, 2}
+  LinNV = {2}
   Shapes1 <- Nodes24
   Shapes2 <- ShapesAll4
   LawShapes2 <- ShapesAll4
